@@ -10,10 +10,18 @@ use crate::tree::*;
 use serde_json::{json, Value};
 use std::sync::Arc;
 
-const P: &str = "C12";
+/// the property on whose behalf this lab process runs (VERIF_LAB_PROP): C12 = every condition; C13 = tagged-group edits
+/// only; C14 = suffix / shortened-length relations only
+fn mode() -> &'static str {
+    match std::env::var("VERIF_LAB_PROP").ok().as_deref() {
+        Some("C13") => "C13",
+        Some("C14") => "C14",
+        _ => "C12",
+    }
+}
 
 fn read_lab_file(name: &str) -> String {
-    std::fs::read_to_string(verif_root().join("lab").join("src").join(name)).unwrap_or_default()
+    std::fs::read_to_string(crate::props::c12::lab_dir(mode()).join("src").join(name)).unwrap_or_default()
 }
 
 /// Source of struct `name` and of everything it nests (for replay files).
@@ -92,7 +100,7 @@ pub fn check_value(t: &Table, e: &TypeEntry, idx: usize, shape: &str, v: &Val) -
         input["struct"] = json!(e.name);
         input["value"] = serde_json::to_value(v).unwrap();
         let kind = inner.sig.split("kind=").nth(1).unwrap_or("").to_string();
-        let sig = format!("C12 cond={cond} kind={kind}");
+        let sig = if mode() == "C12" { format!("C12 cond={cond} kind={kind}") } else { format!("{} lab cond={cond} kind={kind}", mode()) };
         input["sig"] = json!(sig);
         let hint = match (inner.input.get("path"), inner.input.get("edit")) {
             (Some(p), Some(ed)) => format!("\n  edit {ed} at level {p}"),
@@ -100,12 +108,18 @@ pub fn check_value(t: &Table, e: &TypeEntry, idx: usize, shape: &str, v: &Val) -
         };
         Violation::new("lab", sig, format!("struct {} [{shape}]\n  {}{hint}", e.name, inner.detail), input)
     };
+    let m = mode();
     // C01 + C03 conditions
-    let r = c01::codec_case(t, e, v);
-    r.c03.map_err(|x| wrap("layout", x))?;
-    r.c01.map_err(|x| wrap("roundtrip", x))?;
-    // C13 edits
-    for (path, edit) in c13::edits_of(t, e.name, v, 3, 4) {
+    if m == "C12" {
+        let r = c01::codec_case(t, e, v);
+        r.c03.map_err(|x| wrap("layout", x))?;
+        r.c01.map_err(|x| wrap("roundtrip", x))?;
+    }
+    // C13 edits (not for layouts in which a nested struct without length prefix is followed by tagged fields of the
+    // enclosing struct: there the two tag sets share one byte level and moved / inserted groups change which struct owns
+    // what follows; such layouts get the layout / round-trip / suffix / totality conditions only)
+    let edits = if has_open_embedding(t, l) || m == "C14" { vec![] } else { c13::edits_of(t, e.name, v, 3, 4) };
+    for (path, edit) in edits {
         // levels below a positional vector / positional option are outside the canonical domain for edits
         let gs = build(t, l, v).map_err(|_| ()).unwrap_or_default();
         if swallowing_step(&gs, &path).1 || positional_vec_on_path(&gs, &path) {
@@ -114,16 +128,28 @@ pub fn check_value(t: &Table, e: &TypeEntry, idx: usize, shape: &str, v: &Val) -
         c13::check_edit(t, e, v, &path, &edit).map_err(|x| wrap("tagged-edit", x))?;
     }
     // C14 relations
-    if l.ctrl.is_some() {
+    if l.ctrl.is_some() && m != "C13" {
         for sfx in [&[][..], &[0x00], &[0xff], &[0x06, 0x0f, 0x00], &[0x1f]] {
             c14::check_suffix(t, e, v, sfx).map_err(|x| wrap("suffix", x))?;
         }
         c14::check_reannounce(t, e, v, None, 1, &[]).map_err(|x| wrap("shortened-apdu", x))?;
     }
     // totality
+    if m != "C12" {
+        return Ok(());
+    }
     let bytes = encode(t, l, v).unwrap();
     totality(e, &bytes, idx).map_err(|d| wrap("totality", Violation::new("lab", "x kind=totality".to_string(), d, Value::Null)))?;
     Ok(())
+}
+
+/// a positional nested struct without length prefix that is followed by tagged fields, here or in a nested layout
+pub fn has_open_embedding(t: &Table, l: &Layout) -> bool {
+    let tagged_follow = l.fields.iter().any(|f| f.tag.is_some());
+    l.fields.iter().any(|f| match &f.enc {
+        Enc::Struct(n) => (f.tag.is_none() && f.len == Len::None && tagged_follow && t[n].fields.iter().any(|g| g.tag.is_some())) || has_open_embedding(t, &t[n]),
+        _ => false,
+    })
 }
 
 fn positional_vec_on_path(gs: &[Group], path: &[(usize, usize)]) -> bool {
@@ -164,8 +190,9 @@ pub fn main(types: Vec<TypeEntry>, shapes: Vec<&'static str>, table_src: &str) -
         };
     }
     let tier = if args.first().map(|s| s.as_str()) == Some("thorough") { Tier::Thorough } else { Tier::Quick };
-    let ctx = Ctx::new(P, "exploration", tier);
-    crate::alloc::start_watchdog(P, 60, verif_root().join("replays").join(P));
+    let p = mode();
+    let ctx = Ctx::new(p, "exploration", tier);
+    crate::alloc::start_watchdog(p, 60, verif_root().join("replays").join(p));
     let mut stats = Stats::new();
     stats.sample_cap = 8;
     let per_struct: u32 = tier.pick(200, 600);
@@ -186,6 +213,15 @@ pub fn main(types: Vec<TypeEntry>, shapes: Vec<&'static str>, table_src: &str) -
         if l.ctrl.is_some() {
             st.class("programs:command");
         }
+        if has_open_embedding(&t, &l) {
+            st.class("programs:unprefixed-nested-struct-followed-by-tagged-fields");
+        }
+        if l.fields.iter().any(|f| f.tag.is_none() && f.card == Card::Opt && f.len == Len::None && matches!(&f.enc, Enc::Struct(n) if t[n].fields.iter().any(|g| g.tag.is_some() && g.card == Card::One))) {
+            st.class("programs:positional-option-of-unprefixed-struct-with-mandatory-tag");
+        }
+        if l.fields.iter().filter(|f| f.tag.is_some() && f.card == Card::One).count() >= 3 {
+            st.class("programs:>=3-mandatory-tagged-fields");
+        }
         if i < 3 {
             st.sample(|| json!({"struct": e.name, "shape": shape, "table": crate::props::c12::table_text(&l), "source": program_for(&t, e.name, shape)["program_rs"]}));
         }
@@ -204,8 +240,17 @@ pub fn main(types: Vec<TypeEntry>, shapes: Vec<&'static str>, table_src: &str) -
     });
     stats.merge(s);
     let programs = types.len();
+    if p != "C12" {
+        // lab half of another property: hand the counts and violations to the check that started this process
+        stats.class_n("programs-compiled", programs as u64);
+        let Some(path) = std::env::var_os("VERIF_LAB_STATS") else { return 2 };
+        return match std::fs::write(path, serde_json::to_string(&stats.to_value()).unwrap()) {
+            Ok(()) => 0,
+            Err(_) => 2,
+        };
+    }
     let rule = format!(
-        "{programs} struct definitions drawn (proptest, seeded) from the well-formed attribute grammar of DESIGN.md Appendix D (1..8 fields, positional then tagged, Option/Vec, every length style and encoding, nested structs to depth 3, optional control field, both attribute spellings, 1- and 2-byte tags), compiled against /repo's derive macro; per struct {per_struct} proptest-generated canonical values of the generator's own layout description. Oracle per (program, value): reference codec vs generated code (decodes to exactly the described fields, re-encodes identically, round-trips), tagged-group edits (C13 oracle), suffix / shortened-APDU relations (C14 oracle), truncation/byte-edit totality with the allocation bound. evaluations = (program, value) pairs; non-trivial = the struct has both positional and tagged fields, or a nested struct, or a Vec; distinct by (program shape, encoded value)"
+        "{programs} struct definitions drawn (proptest, seeded) from the well-formed attribute grammar of DESIGN.md Appendix D (1..8 fields, positional then tagged, Option/Vec, every length style and encoding, nested structs to depth 3, optional control field, both attribute spellings, 1- and 2-byte tags; plus directed families: positional Option<struct> / struct without length prefix whose struct has tagged fields only, as last field, followed by tagged fields of the enclosing struct, one level deeper, and structs with 3..6 mandatory tagged fields), compiled against /repo's derive macro; per struct {per_struct} proptest-generated canonical values of the generator's own layout description. Oracle per (program, value): reference codec vs generated code (decodes to exactly the described fields, re-encodes identically, round-trips), tagged-group edits (C13 oracle), suffix / shortened-APDU relations (C14 oracle), truncation/byte-edit totality with the allocation bound. evaluations = (program, value) pairs; non-trivial = the struct has both positional and tagged fields, or a nested struct, or a Vec; distinct by (program shape, encoded value)"
     );
     let code = ctx.finish(stats, &rule, &["well-formedness (unique decodability) is established by construction in props/c12.rs; layouts outside it are not programs in the property's sense", "program-level shrinking is by isolation of the failing struct (the replay file carries its source and table entry)"], false);
     // translation-style extra key: number of programs
